@@ -24,6 +24,9 @@ package pickfirst
 //              reported TRANSIENT_FAILURE; a pass with nothing outstanding that
 //              is not over is a stall; TF is not reported (from a non-TF state)
 //              before every address failed.
+//   R-refresh  (A61 steady state) after a failed pass, every time as many further
+//              connection failures were seen as there are subchannels, TF is
+//              reported again (fresh error for the picker).
 //   R-sticky   once TF was reported for connectivity reasons every later
 //              report is TF until a live subchannel becomes READY (or the
 //              resolver removes every address).
@@ -262,6 +265,9 @@ type c34World struct {
 	reported bool
 	S        connectivity.State
 	picker   balancer.Picker
+	// steady-state TF refresh (0 = rule not armed for this failed phase)
+	refreshN, refreshK int
+	expectRefresh      bool
 
 	fails []c34Fail
 	trace []string
@@ -379,7 +385,23 @@ func (w *c34World) frontier() (p int, fresh bool) {
 	return len(w.order), fresh
 }
 
+// enterFailed: the pass ended with every address failed. The refresh rule is
+// armed only when the end of the pass is unambiguous (TF reported in reaction
+// to a subchannel failure or a resolver update).
+func (w *c34World) enterFailed(op *c34Op) {
+	w.phase, w.sticky = c34Failed, true
+	w.refreshN, w.refreshK = 0, 0
+	if op != nil && (op.kind == c34OpSC || op.kind == c34OpUpdate) {
+		for _, s := range w.scs {
+			if !s.shutdown {
+				w.refreshN++
+			}
+		}
+	}
+}
+
 func (w *c34World) startPass() {
+	w.refreshN, w.refreshK = 0, 0
 	w.pass++
 	w.phase = c34InPass
 	w.readySC = nil
@@ -442,6 +464,12 @@ func (w *c34World) modelEvent(op *c34Op, target *c34SC, prev connectivity.State)
 			f.seenBusy = true
 		case connectivity.TransientFailure:
 			f.tfEvent, f.seenBusy = true, true
+			if w.phase == c34Failed && w.refreshN > 0 {
+				w.refreshK++
+				if w.refreshK%w.refreshN == 0 {
+					w.refreshK, w.expectRefresh = 0, true
+				}
+			}
 		case connectivity.Ready:
 			w.phase, w.readySC, w.sticky = c34Ready, target, false
 		case connectivity.Idle:
@@ -536,10 +564,10 @@ func (w *c34World) judge(op *c34Op, target *c34SC, log []c34Entry) {
 				switch w.phase {
 				case c34InPass:
 					if w.allFailed() {
-						w.phase, w.sticky = c34Failed, true
+						w.enterFailed(op)
 					} else if !wasTF {
 						w.failf("premature-tf/not-every-address-failed", "TRANSIENT_FAILURE reported on %q although not every address of %v failed in this pass; subchannels: %s", op.name, w.order, w.scString())
-						w.phase, w.sticky = c34Failed, true
+						w.enterFailed(nil)
 					}
 				case c34Failed:
 					w.sticky = true
@@ -547,6 +575,18 @@ func (w *c34World) judge(op *c34Op, target *c34SC, log []c34Entry) {
 			}
 		case c34LogOther:
 			// not used by pick_first with health listening off; harmless
+		}
+	}
+	if w.expectRefresh {
+		w.expectRefresh = false
+		seen := false
+		for _, e := range log {
+			if e.kind == c34LogUpdateState && e.state == connectivity.TransientFailure {
+				seen = true
+			}
+		}
+		if !seen && w.phase == c34Failed {
+			w.failf("tf-refresh/missing-after-all-subchannels-failed-again", "steady-state retry mode with %d subchannels: %d further connection failures were reported but TRANSIENT_FAILURE (with the new error) was not reported again on %q; subchannels: %s", w.refreshN, w.refreshN, op.name, w.scString())
 		}
 	}
 }
@@ -603,7 +643,7 @@ func (w *c34World) checkQuiescent(op *c34Op, preFrontier int, preFresh, preInPas
 	if w.phase == c34InPass && !w.outstanding() {
 		if w.allFailed() {
 			if w.reported && w.S == connectivity.TransientFailure {
-				w.phase, w.sticky = c34Failed, true
+				w.enterFailed(nil)
 			} else {
 				w.failf("tf-missing/all-failed-nothing-outstanding", "every address of %v failed in this pass and no attempt is outstanding, but the balancer state is %v; subchannels: %s", w.order, w.S, w.scString())
 			}
